@@ -85,6 +85,12 @@ func (g *goBuilder) collect(v *SVal, depth int) {
 	if g.fail != "" || depth > 4 {
 		return
 	}
+	if len(g.q.terms) > 20000 {
+		// nested slices of slices: 72 elements per level multiply; give the replay up rather
+		// than the check (the violation is then reported with no-failing-input-found)
+		g.fail = "input too large to rebuild from the model"
+		return
+	}
 	switch kindOf(v.T) {
 	case KInt, KBool:
 		g.q.add(v.Term)
